@@ -7,6 +7,10 @@ package sqlc
 // cluster-type client) -> one miniredis per cache node, with a harness-owned fake database (closures counting
 // queries), one operation per trace line.
 //
+//   options   section cfg `exp=<ms|-> nf=<ms|->`: the cache.Options the cache is built with through the real
+//             constructors (NewConn -> cache.New -> NewNode -> newOptions): "-" = option not given, otherwise
+//             WithExpiry / WithNotFoundExpiry with ANY integer number of milliseconds (0, negative, sub-second,
+//             fractional seconds, very large). What newOptions makes of them is the model's business.
 //   nodes     section cfg `nodes=<n> type=<node|cluster> place=<key>:<node>,...`: n miniredis servers; the cache
 //             is built by the real constructors from a cache.CacheConf naming them. Which node the dispatcher
 //             sends a key to depends on pointer values (the ring hashes fmt.Sprint of the cacheNode), so the
@@ -108,13 +112,7 @@ func TestVerifC06(t *testing.T) {
 		// a fresh cleaner wheel per section: pending retries of one section never leak into the next
 		cleaner := cache.VerifC06SwapCleaner()
 		env, conf := cache.VerifC06NewEnv(cfg.Int("nodes", 1), cfg.Str("type", "node"), cfg.Str("place", "-"))
-		var opts []cache.Option
-		if e := cfg.Int("exp", 0); e != 0 {
-			opts = append(opts, cache.WithExpiry(time.Duration(e)*time.Millisecond))
-		}
-		if e := cfg.Int("nf", 0); e != 0 {
-			opts = append(opts, cache.WithNotFoundExpiry(time.Duration(e)*time.Millisecond))
-		}
+		opts := cache.VerifC06Options(cfg.Str("exp", "-"), cfg.Str("nf", "-"))
 		cc := NewConn(nil, conf, opts...)
 		env.Attach(cc.cache)
 		key, keysOf, dump := env.Key, env.Keys, env.Dump
@@ -125,10 +123,23 @@ func TestVerifC06(t *testing.T) {
 		ctx := context.Background()
 		keyer := func(primary any) string { return key(fmt.Sprintf("p%v", primary)) }
 
+		// the result token of a read, cross-checked with Cache.IsNotFound (the cache was built with sql.ErrNoRows
+		// as its errNotFound): IsNotFound(err) must hold exactly for the not-found result
+		isNF := func(res string, err error) string {
+			if cc.cache.IsNotFound(err) != (res == "notfound") {
+				return "err:IsNotFound-disagrees-with-" + res
+			}
+			return res
+		}
 		step := func(op []string) string {
 			timex.VerifAdvance(20 * time.Second)
 			env.Jitter.SetJ(verifh.Atoi(c06Opt(op, "j", "500")))
 			dbfail := c06Opt(op, "db", "0") == "1"
+			// `w=1`: the query reports an absent row with a WRAPPED not-found error (errors.Is semantics)
+			notFound := error(ErrNotFound)
+			if c06Opt(op, "w", "0") == "1" {
+				notFound = fmt.Errorf("verif: no such row: %w", ErrNotFound)
+			}
 			env.Begin(cache.VerifC06ModeOrder, c06Opt(op, "c", ""))
 			queries = 0
 			res := ""
@@ -144,12 +155,12 @@ func TestVerifC06(t *testing.T) {
 					}
 					r, ok := rows[pk]
 					if !ok {
-						return ErrNotFound
+						return notFound
 					}
 					*v.(*c06Row) = r
 					return nil
 				})
-				res = c06Err(err)
+				res = isNF(c06Err(err), err)
 				if err == nil {
 					res = fmt.Sprintf("val:r:%d:%d:%d", v.Id, v.V, v.A)
 				}
@@ -198,12 +209,12 @@ func TestVerifC06(t *testing.T) {
 							}
 							r, ok := rows[pk]
 							if !ok {
-								return ErrNotFound
+								return notFound
 							}
 							*v.(*c06Row) = r
 							return nil
 						})
-						r := c06Err(err)
+						r := isNF(c06Err(err), err)
 						if err == nil {
 							r = fmt.Sprintf("val:r:%d:%d:%d", v.Id, v.V, v.A)
 						}
@@ -232,11 +243,11 @@ func TestVerifC06(t *testing.T) {
 						}
 						pk, ok := idx[a]
 						if !ok {
-							return nil, ErrNotFound
+							return nil, notFound
 						}
 						r, ok := rows[pk]
 						if !ok {
-							return nil, ErrNotFound
+							return nil, notFound
 						}
 						*v.(*c06Row) = r
 						return pk, nil
@@ -263,12 +274,12 @@ func TestVerifC06(t *testing.T) {
 						}
 						r, ok := rows[pk]
 						if !ok {
-							return ErrNotFound
+							return notFound
 						}
 						*v.(*c06Row) = r
 						return nil
 					})
-				res = c06Err(err)
+				res = isNF(c06Err(err), err)
 				if err == nil {
 					res = fmt.Sprintf("val:r:%d:%d:%d", v.Id, v.V, v.A)
 				}
@@ -276,14 +287,14 @@ func TestVerifC06(t *testing.T) {
 				if op[1][0] == 'p' {
 					var v c06Row
 					err := cc.GetCacheCtx(ctx, key(op[1]), &v)
-					res = c06Err(err)
+					res = isNF(c06Err(err), err)
 					if err == nil {
 						res = fmt.Sprintf("val:r:%d:%d:%d", v.Id, v.V, v.A)
 					}
 				} else {
 					var v any
 					err := cc.GetCacheCtx(ctx, key(op[1]), &v)
-					res = c06Err(err)
+					res = isNF(c06Err(err), err)
 					if err == nil {
 						f, ok := v.(json.Number)
 						if !ok {
@@ -461,8 +472,11 @@ func c06J(r *verifh.Rng) string {
 }
 
 func c06DBFault(r *verifh.Rng) string {
-	if r.Chance(1, 8) {
+	switch r.Intn(16) {
+	case 0, 1:
 		return " db=1"
+	case 2, 3:
+		return " w=1" // an absent row is reported with a wrapped not-found error
 	}
 	return ""
 }
@@ -490,19 +504,51 @@ var c06ClusterScenario = verifh.Section{Cfg: "exp=20000 nf=3000 stale=report nod
 	"exec p2,x2,x1 put:2:21:1 c=010/0", "qindex x2", "qindex x1 j=500", "tick 1 c=10", "tick 5 c=00", "qindex x2", "take p2",
 }}
 
+// the option values at and around the sanity checks of newOptions, replayed on every run: every path that
+// writes an entry (placeholder through Take and through the index path, row through Take, index + primary
+// entry, SetCache, SetCacheWithExpire with a non-positive expire) with the jitter at both ends, then the clock
+// moved to just before / exactly to the end of the smallest and the largest TTL the property allows.
+func c06OptionScenarios() []verifh.Section {
+	var secs []verifh.Section
+	for _, o := range [][2]string{{"-", "-"}, {"0", "0"}, {"-1", "-1"}, {"1", "1"}, {"999", "1000"}, {"1001", "999"}, {"-", "0"}, {"0", "-"}} {
+		e := cache.VerifC06Effective(o[0], 7*24*3600*1000)
+		n := cache.VerifC06Effective(o[1], 60000)
+		lo := func(ms int64) int64 { return (95*ms + 99999) / 100000 * 1000 } // ceil(0.95 e) s, in ms
+		hi := func(ms int64) int64 { return (105*ms + 99999) / 100000 * 1000 }
+		ops := []string{
+			"take p1 j=0", "qindex x2 j=1000", fmt.Sprintf("ft %d", lo(n)-1), "take p1", "qindex x2", "ft 1", "qindex x2 j=0",
+			fmt.Sprintf("ft %d", hi(n)-lo(n)), "take p1 j=1000", fmt.Sprintf("ft %d", hi(n)),
+			"exec p1,x1 put:1:10:1", "take p1 j=0", "qindex x1 j=1000", "set p2 r:2:20:2 j=0", "setx p3 r:3:30:3 0 j=1000", "setx p4 r:4:40:4 -1 j=500",
+			fmt.Sprintf("ft %d", lo(e)-1), "take p1", "qindex x1", "ft 1", "qindex x1", fmt.Sprintf("ft %d", hi(e)-lo(e)), "take p1", "get p2", "get p3",
+			fmt.Sprintf("ft %d", 5000), "get p1", "take p7 j=500", "exec p7 put:7:1:7", "take p7",
+		}
+		secs = append(secs, verifh.Section{Cfg: fmt.Sprintf("exp=%s nf=%s stale=report nodes=1 type=node place=-", o[0], o[1]), Ops: ops})
+	}
+	return secs
+}
+
+// the NX semantics of the not-found marker, replayed on every run: an unparsable entry whose DEL fails keeps
+// the slot occupied — SET NX of the marker must leave it alone (absent row), a found row overwrites it with SET;
+// with the DEL succeeding the marker goes in; a marker is never written over a row that arrives first (set,
+// then take); the wrapped not-found error of the query is treated as not-found (errors.Is).
+var c06NXScenario = verifh.Section{Cfg: "exp=20000 nf=3000 stale=report nodes=1 type=node place=-", Ops: []string{
+	"raw p1 j:3 50000", "take p1 c=01 j=500", "get p1 c=01", "take p1 c=011", "take p1 j=0", "take p1", "ft 4000", "take p1 w=1 j=1000", "take p1 w=1",
+	"raw x1 j:4 50000", "qindex x1 c=01", "qindex x1 w=1", "qindex x1",
+	"exec - put:2:5:2", "raw p2 j:1 100000", "take p2 c=01 j=500", "take p2",
+	"raw x2 j:2 100000", "qindex x2 c=01", "qindex x2", "exec p2,x2 rm:2", "set p2 r:2:5:2", "take p2", "del p2", "take p2 w=1", "qindex x2 w=1",
+}}
+
 func c06Gen(r *verifh.Rng) []verifh.Section {
-	secs := []verifh.Section{c06StaleScenario, c06ClusterScenario}
+	secs := []verifh.Section{c06StaleScenario, c06ClusterScenario, c06NXScenario}
+	secs = append(secs, c06OptionScenarios()...)
 	nsec := verifh.Scale(44, 400)
+	offE, offN := r.Intn(100), r.Intn(100)
 	for i := 0; i < nsec; i++ {
-		exp := r.Pick(0, 20000, 2500, 1000, 60000, 7000)
-		nf := r.Pick(0, 1000, 3000, 10000)
-		e, n := exp, nf
-		if e == 0 {
-			e = 7 * 24 * 3600 * 1000
-		}
-		if n == 0 {
-			n = 60000
-		}
+		// every class of option value in every run: the sections cycle through the value lists
+		exp := cache.VerifC06ExpValues[(i+offE)%len(cache.VerifC06ExpValues)]
+		nf := cache.VerifC06NfValues[(5*i+offN)%len(cache.VerifC06NfValues)]
+		e := int(cache.VerifC06Effective(exp, 7*24*3600*1000))
+		n := int(cache.VerifC06Effective(nf, 60000))
 		db := &c06GenDB{rows: map[int][2]int{}, idx: map[int]int{}}
 		nk := r.Range(1, 3)
 		pkey := func() int { return r.Intn(nk) }
@@ -563,7 +609,10 @@ func c06Gen(r *verifh.Rng) []verifh.Section {
 				if r.Chance(1, 4) {
 					w = fmt.Sprintf("rm:%d", pkey())
 				}
-				dbf := c06DBFault(r)
+				dbf := ""
+				if r.Chance(1, 8) {
+					dbf = " db=1"
+				}
 				var keys []string
 				if dbf == "" {
 					keys = db.write(w)
@@ -644,7 +693,7 @@ func c06Gen(r *verifh.Rng) []verifh.Section {
 				ops = append(ops, fmt.Sprintf("tick %d c=%s", nt, downBits()))
 			}
 		}
-		secs = append(secs, verifh.Section{Cfg: fmt.Sprintf("exp=%d nf=%d stale=report nodes=%d type=%s place=%s", exp, nf, nodes, typ, place), Ops: ops})
+		secs = append(secs, verifh.Section{Cfg: fmt.Sprintf("exp=%s nf=%s stale=report nodes=%d type=%s place=%s", exp, nf, nodes, typ, place), Ops: ops})
 	}
 	return secs
 }
